@@ -198,7 +198,7 @@ func c17(r *core.Run) {
 	})
 
 	// ---------------- D2 recency ----------------
-	r.Check("D2/K1/hit-touches-lru", "a lookup that reports its comma-ok flag to the caller touches the LRU with the same key on the found arm before returning", func(o *core.O) {
+	r.Check("D2/K1/hit-touches-lru", "a lookup in data that hands the value or its comma-ok flag to the caller touches the LRU with the same key on the found arm before returning", func(o *core.O) {
 		n := 0
 		for _, f := range fns {
 			if !recvIs(f, "Cache") {
@@ -207,8 +207,9 @@ func c17(r *core.Run) {
 			reports := false
 			for _, ret := range core.Returns(f) {
 				for i := range ret.Results {
-					if isDataFound(core.Result(ret, i)) {
-						reports = true
+					res := core.Result(ret, i)
+					if l, k := lookupOf(res); isDataFound(res) || (l != nil && k == 0 && core.IsFieldLoad(l.X, "Cache.data")) {
+						reports = true // the flag or the looked-up value is handed to the caller
 					}
 				}
 			}
@@ -340,70 +341,121 @@ func c17(r *core.Run) {
 			return ok && core.Short(core.CalleeName(c)) == "(*container/list.List).Len" && core.IsFieldLoad(core.Args(c)[0], "keyLru.evicts")
 		}
 		over := core.Cmp(token.GTR, isLen, core.FieldLoad("keyLru.limit"))
-		isEvict := func(in ssa.Instruction) bool {
+		isBack := func(in ssa.Instruction) bool {
 			c, ok := in.(*ssa.Call)
-			return ok && recvIs(c.Call.StaticCallee(), "keyLru") && c.Call.StaticCallee() != add
+			return ok && core.Short(core.CalleeName(c)) == "(*container/list.List).Back" && core.IsFieldLoad(core.Args(c)[0], "keyLru.evicts")
 		}
-		ev := core.Calls(add, isEvict)
-		ovE, _ := core.EdgesOf(add, over)
-		o.Site(len(ev) + len(ovE))
-		if len(ovE) == 0 {
-			o.Fail(p.Pos(add.Pos()), "add never tests Len() > limit")
+		isFront := core.CallTo("(*container/list.List).Front")
+		// E: add and the keyLru methods it reaches through static calls (the eviction may sit in a helper)
+		E := []*ssa.Function{add}
+		inE := map[*ssa.Function]bool{add: true}
+		for i := 0; i < len(E); i++ {
+			for _, c := range core.Calls(E[i], func(in ssa.Instruction) bool { _, ok := in.(*ssa.Call); return ok }) {
+				if g := c.Common().StaticCallee(); g != nil && recvIs(g, "keyLru") && g.Parent() == nil && !inE[g] {
+					inE[g] = true
+					E = append(E, g)
+				}
+			}
+		}
+		// removal of the least recently used element: a call whose last argument is evicts.Back()
+		removesBack := func(in ssa.Instruction) bool {
+			c, ok := in.(*ssa.Call)
+			if !ok || len(core.Args(c)) == 0 {
+				return false
+			}
+			if !(recvIs(c.Call.StaticCallee(), "keyLru") || core.CallTo("(*container/list.List).Remove")(in)) {
+				return false
+			}
+			a := core.Args(c)
+			return core.IsResult(a[len(a)-1], 0, isBack)
+		}
+		var mayEvict func(g *ssa.Function, d int) bool
+		evictsIn := func(d int) func(in ssa.Instruction) bool {
+			return func(in ssa.Instruction) bool {
+				if removesBack(in) {
+					return true
+				}
+				c, ok := in.(*ssa.Call)
+				if !ok {
+					return false
+				}
+				g := c.Call.StaticCallee()
+				return g != nil && inE[g] && g != add && g != in.Parent() && mayEvict(g, d+1)
+			}
+		}
+		mayEvict = func(g *ssa.Function, d int) bool {
+			return d < 4 && len(core.Instrs(g, evictsIn(d))) > 0
+		}
+		isEvict := evictsIn(0)
+		nEv, nFront := 0, 0
+		var guardFn *ssa.Function
+		for _, g := range E {
+			r.Fn(core.FuncName(g))
+			nEv += len(core.Instrs(g, removesBack))
+			for _, fr := range core.Calls(g, isFront) {
+				nFront++
+				o.Fail(p.InstrPos(fr), "%s takes Front(): the most recently used entry is evicted", core.FuncName(g))
+			}
+			if core.EdgeCount(g, over) > 0 && len(core.Instrs(g, isEvict)) > 0 {
+				if guardFn != nil {
+					o.Fail(p.Pos(g.Pos()), "Len() > limit is tested in more than one place")
+				}
+				guardFn = g
+			}
+		}
+		o.Site(nEv)
+		if nEv == 0 {
+			o.Fail(p.Pos(add.Pos()), "add (with the keyLru methods it calls) never removes evicts.Back(): the least recently used element is not the one evicted")
 			return
 		}
-		if len(ev) == 0 {
-			o.Fail(p.Pos(add.Pos()), "add never evicts")
+		if guardFn == nil {
+			o.Fail(p.Pos(add.Pos()), "add (with the keyLru methods it calls) never tests Len() > limit before evicting")
 			return
 		}
-		if w := core.Requires(add, isEvict, over); w != nil {
+		ovE, _ := core.EdgesOf(guardFn, over)
+		o.Site(len(ovE), core.FuncName(guardFn))
+		if w := core.Requires(guardFn, isEvict, over); w != nil {
 			o.Fail(p.InstrPos(w), "eviction is reachable without Len() > limit")
 		}
-		if w := everyReturnPasses(f10Heads(ovE), isEvict); w != nil {
-			o.Fail(p.InstrPos(w), "Len() > limit but add returns without evicting: the cache exceeds its limit")
+		// every removal of Back() anywhere in E is under the guard: either inside guardFn (checked above) or in a callee reached only through it
+		for _, g := range E {
+			if g == guardFn {
+				continue
+			}
+			for _, in := range core.Instrs(g, removesBack) {
+				if !mayEvict(guardFn, 0) || g == add {
+					o.Fail(p.InstrPos(in), "Back() is removed outside the Len() > limit test")
+				}
+			}
 		}
-		for _, c := range core.Calls(add, func(in ssa.Instruction) bool {
+		emptyList, _ := core.EdgesOf(guardFn, core.Cmp(token.EQL, func(v ssa.Value) bool { return core.IsResult(v, 0, isBack) }, core.IsNil))
+		if w, ok := core.Reach(core.Q{From: f10Heads(ovE), Target: core.IsReturn, Blocked: isEvict, Cut: core.CutSet(emptyList)}); ok {
+			o.Fail(p.InstrPos(w), "Len() > limit but %s returns without evicting: the cache exceeds its limit", core.FuncName(guardFn))
+		}
+		// the size test happens on the miss path, after the push
+		sizeTest := func(in ssa.Instruction) bool {
 			c, ok := in.(*ssa.Call)
-			return ok && isLen(c)
-		}) {
+			if !ok {
+				return false
+			}
+			if guardFn == add {
+				return isLen(c)
+			}
+			return c.Call.StaticCallee() == guardFn
+		}
+		tests := core.Instrs(add, sizeTest)
+		o.Site(len(tests))
+		if len(tests) == 0 {
+			o.Fail(p.Pos(add.Pos()), "add does not reach the Len() > limit test")
+		}
+		if w := everyReturnPasses(f10Heads(miss), sizeTest); w != nil {
+			o.Fail(p.InstrPos(w), "a new key is added without testing Len() > limit: the cache exceeds its limit")
+		}
+		for _, c := range tests {
 			for _, pf := range core.Instrs(add, isPF) {
 				if !core.Dominates(pf, c) {
 					o.Fail(p.InstrPos(c), "the size is tested before the new key is pushed (limit+1 entries)")
 				}
-			}
-		}
-		// the evicted element is Back()
-		for _, c := range ev {
-			callee := c.Common().StaticCallee()
-			r.Fn(core.FuncName(callee))
-			isBack := core.CallTo("(*container/list.List).Back")
-			isFront := core.CallTo("(*container/list.List).Front")
-			bk := core.Calls(callee, isBack)
-			o.Site(len(bk), core.FuncName(callee))
-			if len(bk) == 0 {
-				o.Fail(p.Pos(callee.Pos()), "%s does not take the least recently used element (Back())", core.FuncName(callee))
-			}
-			for _, fr := range core.Calls(callee, isFront) {
-				o.Fail(p.InstrPos(fr), "%s takes Front(): the most recently used entry is evicted", core.FuncName(callee))
-			}
-			for _, b := range bk {
-				if !core.IsFieldLoad(core.Args(b)[0], "keyLru.evicts") {
-					o.Fail(p.InstrPos(b), "Back() of something else than evicts")
-				}
-			}
-			// what is removed is that element
-			rm := core.Calls(callee, func(in ssa.Instruction) bool {
-				c, ok := in.(*ssa.Call)
-				return ok && (recvIs(c.Call.StaticCallee(), "keyLru") || core.CallTo("(*container/list.List).Remove")(in))
-			})
-			okRm := false
-			for _, x := range rm {
-				a := core.Args(x)
-				if core.IsResult(a[len(a)-1], 0, isBack) {
-					okRm = true
-				}
-			}
-			if !okRm {
-				o.Fail(p.Pos(callee.Pos()), "%s does not remove the element returned by Back()", core.FuncName(callee))
 			}
 		}
 	})
@@ -507,7 +559,12 @@ func c17(r *core.Run) {
 			if !ok {
 				return false
 			}
-			return core.FieldAddrNameOfLoad(ta.X) == "Element.Value" && core.DependsOn(ta.X, paramIs(elemP))
+			if core.FieldAddrNameOfLoad(ta.X) == "Element.Value" && core.DependsOn(ta.X, paramIs(elemP)) {
+				return true
+			}
+			// list.Remove(elem) returns elem.Value
+			c, i := core.ResultOf(ta.X)
+			return c != nil && i == 0 && isListRm(c) && paramIs(elemP)(core.Args(c)[1])
 		}
 		for _, c := range core.Calls(re, isListRm) {
 			if !paramIs(elemP)(core.Args(c)[1]) {
@@ -577,7 +634,9 @@ func c17(r *core.Run) {
 			return
 		}
 		r.Fn(core.FuncName(body))
-		bar := core.Calls(take, core.CallMethod("syncx.SingleFlight", "Do"))
+		isBarrier := core.Or(core.CallMethod("syncx.SingleFlight", "Do"), core.CallMethod("syncx.SingleFlight", "DoEx"))
+		barErr := func(b ssa.CallInstruction) int { return b.Common().Signature().Results().Len() - 1 } // the error is the last result of Do / DoEx
+		bar := core.Calls(take, isBarrier)
 		o.Site(len(bar), core.FuncName(take))
 		okBar := false
 		for _, b := range bar {
@@ -598,19 +657,19 @@ func c17(r *core.Run) {
 				continue
 			}
 			for _, ref := range *mc.Referrers() {
-				if c, ok := ref.(*ssa.Call); !ok || !core.CallMethod("syncx.SingleFlight", "Do")(c) {
+				if c, ok := ref.(*ssa.Call); !ok || !isBarrier(c) {
 					o.Fail(p.InstrPos(ref), "the fetching closure is also used outside barrier.Do")
 				}
 			}
 		}
 		// Take returns the barrier's error
 		for _, b := range bar {
-			_, errArm := core.EdgesOf(take, core.ErrNil(1, core.Is(b)))
+			_, errArm := core.EdgesOf(take, core.ErrNil(barErr(b), core.Is(b)))
 			if len(errArm) == 0 {
 				o.Fail(p.InstrPos(b), "Take never tests the barrier's error")
 			}
 			core.Reach(core.Q{From: f10Heads(errArm), Target: func(in ssa.Instruction) bool {
-				if ret, ok := in.(*ssa.Return); ok && !core.IsResult(core.Result(ret, 1), 1, core.Is(b)) {
+				if ret, ok := in.(*ssa.Return); ok && !core.IsResult(core.Result(ret, 1), barErr(b), core.Is(b)) {
 					o.Fail(p.InstrPos(in), "Take does not return the error of the shared fetch")
 				}
 				return false
@@ -729,12 +788,11 @@ func c17(r *core.Run) {
 			if n, ok := core.ConstInt(a[1]); !ok || n < 2 {
 				o.Fail(p.InstrPos(c), "wheel slot count is %s", core.Describe(a[1]))
 			}
-			mc, ok := core.Strip(a[2]).(*ssa.MakeClosure)
-			if !ok {
-				o.Fail(p.InstrPos(c), "the wheel callback is not a closure of NewCache")
+			cb, keyIdx := f17Callback(core.Strip(a[2]))
+			if cb == nil {
+				o.Fail(p.InstrPos(c), "the wheel callback %s is not a function of this package", core.Describe(a[2]))
 				continue
 			}
-			cb := mc.Fn.(*ssa.Function)
 			r.Fn(core.FuncName(cb))
 			dels := core.Calls(cb, core.CallMethod("collection.Cache", "Del"))
 			o.Site(len(dels), core.FuncName(cb))
@@ -742,7 +800,7 @@ func c17(r *core.Run) {
 				o.Fail(p.Pos(cb.Pos()), "the wheel callback does not delete the expired key")
 			}
 			for _, d := range dels {
-				if !core.DependsOn(core.Args(d)[1], paramIs(cb.Params[0])) {
+				if !core.DependsOn(core.Args(d)[1], paramIs(cb.Params[keyIdx])) {
 					o.Fail(p.InstrPos(d), "the key deleted on expiry is not the key the wheel fired")
 				}
 			}
@@ -753,7 +811,7 @@ func c17(r *core.Run) {
 					return false
 				}
 				ta, ok := e.Tuple.(*ssa.TypeAssert)
-				return ok && ta.CommaOk && paramIs(cb.Params[0])(ta.X)
+				return ok && ta.CommaOk && paramIs(cb.Params[keyIdx])(ta.X)
 			})
 			okE, _ := core.EdgesOf(cb, isStr)
 			from := f10Heads(okE)
@@ -870,3 +928,50 @@ func instrsOf(cs []ssa.CallInstruction) []ssa.Instruction {
 }
 
 func instrsOfCalls(cs []ssa.CallInstruction) []ssa.Instruction { return instrsOf(cs) }
+
+// f17Callback resolves a function value to the package function that does the
+// work and the index of the parameter receiving the callback's first argument:
+// a closure, a bound method value (synthetic wrapper: receiver first), or a
+// thin wrapper that only forwards its first argument to one package function.
+func f17Callback(v ssa.Value) (*ssa.Function, int) {
+	var fn *ssa.Function
+	idx := 0
+	switch x := v.(type) {
+	case *ssa.MakeClosure:
+		fn = x.Fn.(*ssa.Function)
+	case *ssa.Function:
+		fn = x
+	}
+	for depth := 0; fn != nil && depth < 3; depth++ {
+		if fn.Blocks == nil {
+			return nil, 0
+		}
+		isDel := core.CallMethod("collection.Cache", "Del")
+		if fn.Synthetic == "" && len(core.Instrs(fn, isDel)) > 0 {
+			return fn, idx
+		}
+		// forwarders: exactly one static call into the package that receives the argument
+		var next *ssa.Function
+		nextIdx, n := 0, 0
+		for _, c := range core.Calls(fn, func(in ssa.Instruction) bool { _, ok := in.(*ssa.Call); return ok }) {
+			callee := c.Common().StaticCallee()
+			if callee == nil || callee.Blocks == nil || callee.Pkg == nil || !strings.HasSuffix(callee.Pkg.Pkg.Path(), f10CollPkg) {
+				continue
+			}
+			for j, a := range c.Common().Args {
+				if idx < len(fn.Params) && paramIs(fn.Params[idx])(core.Strip(a)) {
+					next, nextIdx = callee, j
+					n++
+				}
+			}
+		}
+		if n != 1 {
+			if fn.Synthetic == "" {
+				return fn, idx
+			}
+			return nil, 0
+		}
+		fn, idx = next, nextIdx
+	}
+	return fn, idx
+}
